@@ -17,9 +17,9 @@ func init() { core.Register("C09", Main) }
 func randomCase(c *core.Case) {
 	r := c.R
 	w := txgen.NewWorld(r, txgen.WorldOpts{Galaxias: r.Intn(2) == 0, NEOA: 1 + r.Intn(3), NContracts: 3 + r.Intn(4)})
-	gasLimit := uint64(200000 + r.Intn(3000000))
+	gasLimit := uint64(500000 + r.Intn(6000000))
 	if r.Intn(4) == 0 {
-		gasLimit = uint64(60000 + r.Intn(200000))
+		gasLimit = uint64(60000 + r.Intn(300000))
 	}
 	sequence(c, w, gasLimit, 4+r.Intn(8))
 }
@@ -27,6 +27,27 @@ func randomCase(c *core.Case) {
 func Main() {
 	r := core.Start("C09", "exploration")
 	r.SetRule("case = generated pre-state (EOAs, 3-6 contracts of value-moving bytecode, coinbase of 5 kinds, both fork rule sets) + a block of 4-11 generated transactions applied one by one with blockchain.ApplyTransaction under commitBlock's snapshot/revert protocol; each transaction is judged by a full account sweep before/after; non-trivial = the transaction ran >= 2 call/create frames, or a self-destruct, or a failed frame, or earned a refund; distinct by (case, position)")
+	r.Assume("the call/create/selfdestruct frames reported through the KVM tracer hooks (kvm.Config{Debug, Tracer}) are the frames the KVM executed; the balances they imply are recomputed by the harness and compared with a full account sweep, the hooks are not trusted for amounts")
+	r.Assume("a transaction rejected by ApplyTransaction is judged after the caller's RevertToSnapshot, as BlockOperations.commitBlock does; the gas pool is judged as ApplyTransaction left it")
+	r.Assume("value that reaches an account after it self-destructed in the same transaction is deleted with the account (standard EVM rule); it is counted separately from self-destruct-to-self burns")
+	r.Cases("corpus", 2*len(scenarios()), core.Opts{}, corpusCase)
 	r.Cases("random", r.N(700, 120000), core.Opts{Workers: 16}, randomCase)
+	r.Cases("block-corpus", 6, core.Opts{Workers: 6}, blockCase)
+	r.Cases("block", r.N(16, 1500), core.Opts{Workers: 16}, blockCase)
+	r.Floor("executed", 1500)
+	r.Floor("rejected", 500)
+	for _, k := range []string{"nonce-low", "nonce-high", "insufficient-funds-for-gas", "block-gas-exhausted", "intrinsic-gas", "insufficient-funds-for-transfer", "signature"} {
+		r.Floor("rejected:"+k, 10)
+	}
+	r.Floor("value_transfers", 500)
+	r.Floor("frames_failed", 300)
+	r.Floor("creates", 100)
+	r.Floor("selfdestructs_to_self", 20)
+	r.Floor("burn_selfdestruct_to_self", 10)
+	r.Floor("burn_value_sent_to_destroyed_account", 1)
+	r.Floor("tx_refund_capped", 10)
+	r.Floor("corpus_scenarios", int64(2*len(scenarios())))
+	r.Floor("blocks", 30)
+	r.Floor("blocks_mixing_executed_and_rejected", 15)
 	r.Finish()
 }
